@@ -29,7 +29,11 @@ Definition settled (c : ccfg) (ops : list wop) : Prop :=
    timer in the future, or it is queued behind a full in-flight table whose entries all have
    timers in the future.  So the only events that can still be needed are exactly those that
    wake the dispatch: a reply, a timer, or the transport.  (buffer sizes, limits >= 1) *)
+(* fewer than 2^64 operations: request ids do not wrap (boundary B2) *)
+Definition wno_wrap (ops : list wop) : Prop := (N.of_nat (length ops) < 18446744073709551616)%N.
+
 Definition stmt_c02_quiescent : Prop := forall c ops,
+  wno_wrap ops ->
   (1 <= cf_qcap c)%nat -> (1 <= cf_maxif c)%nat ->
   settled c ops ->
   let s := wfinal c (ops ++ [WSettle]) in
@@ -43,6 +47,7 @@ Definition stmt_c02_quiescent : Prop := forall c ops,
 
 (* once the dispatch has failed, or has been dropped, nothing is left pending *)
 Definition stmt_c02_dead : Prop := forall c ops,
+  wno_wrap ops ->
   settled c ops ->
   let s := wfinal c (ops ++ [WSettle]) in
   (exists a, finished s = Some (DErr a)) \/ dropped s = true ->
